@@ -512,7 +512,11 @@ def drain(ctx, it, limit=10000):
 def render_int_decimal(ctx, v):
     if not v.concrete:
         if v.ty in SIGNED:
-            raise Unsupported("decimal rendering of a symbolic signed integer")
+            # sign decided (path split), the magnitude rendered as the unsigned value of the same width (MIN included: 0 - MIN = 2^(bits-1))
+            uty = "u" + v.ty[1:]
+            if ctx.decide(v.z() < 0):
+                return [SInt(ord("-"), "char")] + render_int_decimal(ctx, mk_int(0 - v.z(), uty))
+            return render_int_decimal(ctx, mk_int(v.z(), uty))
         bits = INT_BITS[v.ty]
         z = v.z()
         maxd = len(str((1 << bits) - 1))
@@ -700,8 +704,28 @@ class Models:
         name = self.normalize(fname)
         return any(rx.match(name) for rx, _h in self.table)
 
+    # Option methods whose model understands a symbolic-presence option (SymOpt); every other `Option::…` model
+    # gets the option decided (path split) first, so that no model can mistake a SymOpt for `None`
+    SYMOPT_AWARE = re.compile(r"::(?:is_some|is_none|or|or_else::<.*>|unwrap_or|unwrap_or_default|filter::<.*>|is_some_and::<.*>)$"
+                              r"|^<Option<.*> as (?:PartialEq|Clone)>::")
+
+    @staticmethod
+    def decide_symopt(ctx, v):
+        def fix(o):
+            here = ctx.decide(o.present.v if o.present.concrete else o.present.z())
+            return Agg("Option", "Some", [o.fields[0]]) if here else Agg("Option", "None", [])
+        if isinstance(v, SymOpt):
+            return fix(v)
+        if isinstance(v, Ref):
+            t = v.loc.get()
+            if isinstance(t, SymOpt):
+                v.loc.set(fix(t))
+        return v
+
     def call(self, ctx, fname, args):
         name = self.normalize(fname)
+        if name.startswith(("Option::<", "<Option<")) and not self.SYMOPT_AWARE.search(name):
+            args = [self.decide_symopt(ctx, x) for x in args]
         for rx, h in self.table:
             mo = rx.match(name)
             if mo:
